@@ -320,11 +320,7 @@ func genAligned(r *rand.Rand, idx int) *streamCase {
 			b = append(mkBlockTotal(r, 6, size-3), byte(5), 1, byte(i))
 		}
 		c.stream = append(c.stream, b...)
-		c.blocks = append(c.blocks, len(b))
-		if len(b) != size {
-			c.blocks[len(c.blocks)-1] = size - 3
-			c.blocks = append(c.blocks, 3)
-		}
+		c.blocks = append(c.blocks, len(b)) // recomputed from the bytes by refSplit when the case is written
 	}
 	per := 1
 	if idx%4 == 1 && size*4 <= 8800 {
@@ -599,7 +595,66 @@ func parseSched(s string) []schedItem {
 	return res
 }
 
+// refSplit is the harness's own reference splitter: the lengths of the TLV blocks (shortest-form or not: T and L are read as
+// variable-size numbers) that the byte stream consists of; ok = the stream is a whole number of blocks.
+func refSplit(s []byte) (lens []int, ok bool) {
+	num := func(p []byte) (uint64, int) {
+		if len(p) == 0 {
+			return 0, 0
+		}
+		n := 1
+		switch p[0] {
+		case 253:
+			n = 3
+		case 254:
+			n = 5
+		case 255:
+			n = 9
+		}
+		if len(p) < n {
+			return 0, 0
+		}
+		if n == 1 {
+			return uint64(p[0]), 1
+		}
+		var v uint64
+		for _, b := range p[1:n] {
+			v = v<<8 | uint64(b)
+		}
+		return v, n
+	}
+	for pos := 0; pos < len(s); {
+		_, tn := num(s[pos:])
+		if tn == 0 {
+			return lens, false
+		}
+		l, ln := num(s[pos+tn:])
+		if ln == 0 || l > uint64(len(s)-pos-tn-ln) {
+			return lens, false
+		}
+		tot := tn + ln + int(l)
+		lens = append(lens, tot)
+		pos += tot
+	}
+	return lens, true
+}
+
 func writeCaseInput(w *bufio.Writer, c *streamCase) {
+	if c.blocks != nil {
+		// the expected blocks are those of the bytes actually sent (reference splitter), never the generator's bookkeeping.
+		// A stream may end inside a block on purpose (pause / truncation kinds): then the list covers the complete blocks, and the
+		// generator's list is kept only if it describes more than those (a truncated last block it wants the runner to know of).
+		lens, whole := refSplit(c.stream)
+		sum := func(l []int) (t int) {
+			for _, x := range l {
+				t += x
+			}
+			return
+		}
+		if whole || sum(lens) == sum(c.blocks) {
+			c.blocks = append([]int{}, lens...)
+		}
+	}
 	fmt.Fprintf(w, "CASE %s %s\n", c.id, c.kind)
 	const chunk = 20000
 	if len(c.stream) == 0 {
@@ -695,7 +750,7 @@ func envInt(name string, def int) int {
 }
 
 // TestStreamTrace: VERIF_OUT trace path; VERIF_SEED; VERIF_N short cases; VERIF_LONG long cases;
-// VERIF_KINDS "wf", "adv" or "wf,adv"; VERIF_CORPUS directory of *.case files replayed first; VERIF_OPS a single case file.
+// VERIF_KINDS "wf", "adv", "wf,adv" or "aligned"; VERIF_CORPUS directory of *.case files replayed first; VERIF_OPS a single case file.
 func TestStreamTrace(t *testing.T) {
 	out := os.Getenv("VERIF_OUT")
 	if out == "" {
@@ -744,6 +799,11 @@ func TestStreamTrace(t *testing.T) {
 			}
 		}
 		r := rand.New(rand.NewSource(seed))
+		if kinds == "aligned" { // the buffer-aligned generator alone (VERIF_LONG+2 cases)
+			for i := 0; i < 2+nlong; i++ {
+				cases = append(cases, genAligned(r, i))
+			}
+		}
 		if strings.Contains(kinds, "wf") {
 			for i := 0; i < nlong; i++ {
 				cases = append(cases, genWellFormed(r, i, true))
